@@ -359,7 +359,7 @@ func patternClass(site, pattern, pkg, name string, got bool) string {
 }
 
 func universe(comps int) []string {
-	names := []string{"p", "q", "pq", "pfoo"}
+	names := []string{"p", "q", "pq", "pfoo", "p-q", "p.q", "p0"} // (siblings that share a prefix, also with bytes sorting just below and just above the separator)
 	out := []string{""}
 	level := []string{""}
 	for c := 0; c < comps; c++ {
